@@ -12,4 +12,11 @@ def entries(repo, outdir):
     target = os.path.join(repo, "cmd", "collector", "verif_driver_overlay.go")
     if os.path.exists(target):
         raise SystemExit("overlay target already exists in the repository: " + target)
-    return {target: dst}
+    # second added file: the concurrent scenarios of bin/c20_race (VERIF_DRIVER=C20RACE)
+    src2 = os.path.join(here, "cmdcollector_race.go.tmpl")
+    dst2 = os.path.join(outdir, "cmdcollector_verif_race.go")
+    shutil.copyfile(src2, dst2)
+    target2 = os.path.join(repo, "cmd", "collector", "verif_race_overlay.go")
+    if os.path.exists(target2):
+        raise SystemExit("overlay target already exists in the repository: " + target2)
+    return {target: dst, target2: dst2}
